@@ -54,6 +54,8 @@ func run(r *common.Run) error {
 			c.random()
 		case "scen":
 			c.scenarios()
+		case "nego":
+			c.negotiation()
 		case "replay":
 			lines, err := common.ReplayLines(os.Getenv("C09_REPLAYFILE"))
 			if err != nil {
@@ -76,7 +78,11 @@ func run(r *common.Run) error {
 	}
 	r.Exhaustive = append(r.Exhaustive, "every single-step mutation (noise child at every position, every attribute dropped/emptied/garbled, every child dropped, every element stripped) of every stanza template and every reply template")
 	r.Mark("case scenarios")
-	return c.runChild("scen")
+	if err := c.runChild("scen"); err != nil {
+		return err
+	}
+	r.Mark("case negotiation")
+	return c.runChild("nego")
 }
 
 // primitives ties the kind semantics of the skeleton IR to real Go on the whole finite
